@@ -38,7 +38,13 @@ RULE = ("models: d in {2,3} (and d = 4, where `mass` is the general recursion it
         "copula it holds; afterwards every probe (non-negativity, additivity, fast = general, sub-family = whole-line = I-margin copula, "
         "whole-line = marginal mass, inverse tail, Lean correspondence) runs on that live object against the configuration it holds "
         "NOW, and c12.history compares its sub-family tail integrals with the I-margin - by definition - of model.copula and its masses "
-        "with a never-mutated model of the final configuration. non-trivial = finite non-zero mass terms; distinct = distinct "
+        "with a never-mutated model of the final configuration. ORDER / CONTAINER of equivalent information (c12.index_order): a sub-family is a "
+        "SET of coordinates - every index set (the FULL set and every proper sub-family, d = 2, 3, 4) is handed to mass / _mass_nd / _mass_2d / "
+        "_mass_3d / margin_tail_integral with its pairs (i, a_i, b_i) listed in every order (d = 2, 3: all permutations in the dedicated stream, "
+        "models with pairwise different margins, two out of three with a copula that is not a symmetric function; d = 4 and the other streams: "
+        "random non-ascending listings), `indices` as list / tuple / list of numpy integers, by keyword or positionally, end points as list / "
+        "tuple / float array, on fresh objects and on live objects after a history (whose evaluation ops list their coordinates in random "
+        "order too); demanded: the I-margin by definition = the value of the ascending listing. non-trivial = finite non-zero mass terms; distinct = distinct "
         "(probe, model spec, history, I, a, b)")
 NOT_PROVED = [
     "mass_nonneg is a theorem for d = 2 (mass2d_nonneg) and d = 3 (mass3d_nonneg_adm: all 26 sign patterns - orthant boxes, one and two "
@@ -58,11 +64,17 @@ NOT_PROVED = [
     "are not symmetric functions so that a misplaced argument is visible",
     "inverse_tail_integral is a bracketing root search (toms748): only its contract is oracle-checked",
     "that the closed-form marginal integrals are measures (additive, non-negative) is C09, assumed here through the abstract family U",
+    "that mass / margin_tail_integral depend only on the assignment coordinate -> interval (not on the order in which the caller lists the "
+    "coordinates of I, the container type of `indices` / a / b, keyword or positional passing) is oracle-checked (c12.index_order) against the "
+    "I-margin written out from the definitions; the Lean model takes I as a list and no permutation-invariance theorem is stated",
     "the Lean model is a pure function of (marginal tail integrals, copula): that the implementation's answers depend only on the "
     "configuration the object holds now - not on what was evaluated before `copula` was re-assigned or its parameters edited - is "
     "oracle-checked on generated operation histories (c12.history and the ordinary probes run on the live object), not proved",
 ]
 ASSUMPTIONS = ["rectangles are half-open (a,b] with a < b in every coordinate",
+               "`indices` is a list or tuple of distinct integers (Python or numpy integers) as declared (`indices: list[int]`); a numpy ARRAY of "
+               "indices is outside the declared type and is not generated: on the unchanged tree it raises (`indices == self._full_indices` is an "
+               "array: ValueError; `indices.index`: AttributeError), it never returns a wrong number",
                "SuperpositionCopula (Levy copula of a sum of independent Levy processes with re-weighted margins) / NestedClaytonCopula (lower-tail limit of the nested Archimedean Clayton copula, theta0 <= theta1; mixed partial derivative >= 0 "
                "checked at 150 digits) / BlockCopula / MixtureCopula (defined in this file through rpylib's public abstract class LevyCopula) are Levy copulas: "
                "independent blocks (Kallsen-Tankov Prop. 4.1 / Thm 4.4) and convex combinations; groundedness, uniform 1-d margins and "
@@ -772,6 +784,89 @@ def p_by_definition(ctx, inp):
                                                       "by_definition": want, "scale": sc, "copula": repr(model.copula)}, cls=cls)
 
 
+# ---- the ORDER / container in which the caller supplies equivalent information ------------------------------------------------------
+# A sub-family of coordinates is a SET I; a rectangle of its margin is the assignment coordinate i -> (a_i, b_i].  The caller may list the
+# pairs (i, a_i, b_i) in any order, hand `indices` over positionally or by keyword, as a list or a tuple (of Python or numpy integers),
+# and the end points as lists, tuples or arrays: the mass and the tail integral are those of the set.
+IDX_FORMS = ("list", "tuple", "npint")          # `indices: list[int]` - a numpy ARRAY of indices is outside the declared type (see ASSUMPTIONS)
+VEC_FORMS = ("list", "tuple", "array")
+ENTRIES = ("mass", "_mass_nd", "_mass_2d", "_mass_3d")
+
+
+def as_indices(Ip, form):
+    if form == "tuple":
+        return tuple(int(i) for i in Ip)
+    if form == "npint":
+        return [np.int64(i) for i in Ip]
+    return [int(i) for i in Ip]
+
+
+def as_vec(x, form):
+    if form == "tuple":
+        return tuple(x)
+    if form == "array":
+        return np.array(x, dtype=float)
+    return list(x)
+
+
+def entries_for(nI):
+    """the entry points that accept an index set of size nI (observe_at: mass, _mass_nd, _mass_2d, _mass_3d): the hard-coded 2-d (3-d)
+    formula takes at most 2 (3) coordinates - of a model of any dimension, the 3-d formula itself calls _mass_2d on pairs"""
+    return ["mass", "_mass_nd"] + (["_mass_2d"] if nI <= 2 else []) + (["_mass_3d"] if nI <= 3 else [])
+
+
+def call_mass(model, entry, a, b, idx, kw):
+    fn = getattr(model, entry)
+    return float(quiet(fn, a, b, indices=idx) if kw else quiet(fn, a, b, idx))
+
+
+@guarded("c12.index_order")
+def p_index_order(ctx, inp):
+    """'margin masses of sub-families of coordinates agree with the I-margins of the copula' - a sub-family is a SET of coordinates: with
+    the pairs (i, a_i, b_i) listed in the order inp['perm'] (indices as inp['form'], end points as inp['aform'], `indices` passed by keyword
+    or positionally, through each entry point) (i) margin_tail_integral at the corners and (ii) the mass are the I-margin of the copula BY
+    DEFINITION (every value in the slot of its own coordinate) = the values on the ascending listing.  I = the full set included."""
+    spec, I, a, b = inp["spec"], inp["I"], inp["a"], inp["b"]
+    perm, form, aform, entry, kw = inp["perm"], inp["form"], inp["aform"], inp["entry"], inp["kw"]
+    model = model_of(inp)
+    cls = classify(spec, I, a, b)
+    if cls["contains_origin"] or cls["zero_end"]:
+        return
+    d = model._dimension
+    if sorted(perm) != list(range(len(I))) or entry not in entries_for(len(I)) or I != sorted(I):
+        raise ValueError("c12.index_order: malformed input")
+    Ip, ap, bp = [I[k] for k in perm], [a[k] for k in perm], [b[k] for k in perm]
+    asc = (Ip == I)
+    cls.update(I="".join(map(str, I)), listing="ascending" if asc else "permuted", full=(len(I) == d), form=form, entry=entry, kw=bool(kw))
+    ctx.count("c12.index_order", inp, branch=f"d{d}:I{len(I)}:{'asc' if asc else 'perm'}:{entry}")
+    # (i) tail integral of the sub-family at the corners of the rectangle
+    if len(I) >= 2:
+        for pt in itertools.product(*[(x, y) for x, y in zip(a, b)]):
+            if any(math.isinf(x) for x in pt):
+                continue
+            got = float(quiet(model.margin_tail_integral, as_indices(Ip, form), iter([pt[k] for k in perm])))
+            want = i_margin_by_definition(model, I, pt)
+            sc = sum(abs(float(model.marginal_tail_integral(i, x))) for i, x in zip(I, pt)) + 1e-300
+            if not same_float(got, want, sc):
+                ctx.fail("oracle", "c12.index_order", inp, {"what": "margin_tail_integral(indices, x) with the coordinates listed in this order is not "
+                                                                    "the I-margin of the copula at the tail integrals of the listed coordinates (value k "
+                                                                    "belongs to coordinate indices[k])", "indices": Ip, "x": [pt[k] for k in perm],
+                                                            "margin_tail_integral": got, "I_margin_by_definition": want,
+                                                            "copula": repr(model.copula)}, cls=cls)
+                return
+    # (ii) the mass of the rectangle
+    got = call_mass(model, entry, as_vec(ap, aform), as_vec(bp, aform), as_indices(Ip, form), kw)
+    ref = call_mass(model, entry, list(a), list(b), list(I), False)
+    want = mass_by_definition(model, I, a, b)
+    sc = scale_of(model, I, a, b)
+    if not (same_float(got, want, sc) and same_float(got, ref, sc)):
+        ctx.fail("oracle", "c12.index_order", inp, {"what": "the mass of the rectangle {coordinate i over (a_i, b_i]} depends on the order / the "
+                                                            "container in which the caller lists the coordinates: it is not the mass written out "
+                                                            "from the definitions / not the mass of the ascending listing",
+                                                    "indices": Ip, "a": ap, "b": bp, "mass": got, "ascending_listing": ref, "by_definition": want,
+                                                    "scale": sc, "copula": repr(model.copula)}, cls=cls)
+
+
 @guarded("c12.history")
 def p_history(ctx, inp):
     """one live object taken through inp['hist'] (evaluations interleaved with re-assignment of `copula` / in-place edits of the
@@ -903,7 +998,8 @@ def p_density(ctx, inp):
 PROBES = {"c12.model.table": p_model_table, "c12.model.exact": p_model_exact, "c12.fast_vs_general": p_fast_vs_general,
           "c12.nonneg": p_nonneg, "c12.additivity": p_additivity, "c12.margin": p_margin, "c12.submargin": p_submargin,
           "c12.inverse_tail": p_inverse_tail, "c12.density": p_density, "c12.whole_line_nd": p_whole_line_nd,
-          "c12.additivity_nd": p_additivity_nd, "c12.history": p_history, "c12.by_definition": p_by_definition}
+          "c12.additivity_nd": p_additivity_nd, "c12.history": p_history, "c12.by_definition": p_by_definition,
+          "c12.index_order": p_index_order}
 
 
 # ------------------------------------------------------------------------------------------------ generation
@@ -1106,6 +1202,10 @@ def draw_evaluations(rng, d, exact):
     for _ in range(rng.randint(1, 3)):
         Is = rng.choice(proper + [full])
         ops.append(["tail", Is, [draw_point(rng, rng.choice([-1, 1]), exact) for _ in Is]])
+    for op in ops:                  # the caller lists the coordinates of I in any order (the pairs (i, a_i, b_i) / (i, x_i) stay together)
+        if len(op[1]) >= 2 and rng.random() < 0.4:
+            perm = draw_listing(rng, len(op[1]), True)
+            op[1:] = [[v[k] for k in perm] for v in op[1:]]
     if rng.random() < 0.3:
         ops.append(["inv", rng.randrange(d), rng.choice([-1, 1]) * round(rng.uniform(0.05, 3.0), 3)])
     rng.shuffle(ops)
@@ -1125,6 +1225,67 @@ def draw_history(rng, d, exact):
     if rng.random() < 0.5:
         ops += draw_evaluations(rng, d, exact)
     return dict(spec0=spec0, ops=ops)
+
+
+def distinct_margins(rng, spec, exact):
+    """the same spec with pairwise DIFFERENT margins (two equal margins hide a value paired with the wrong coordinate)"""
+    ms = list(spec["margins"])
+    for k in range(len(ms)):
+        for _ in range(20):
+            if all(ms[k] != ms[j] for j in range(k)):
+                break
+            ms[k] = draw_spec(rng, 1, exact)["margins"][0]
+    return dict(spec, margins=ms)
+
+
+def draw_listing(rng, n, permuted=None):
+    """an order of n pairs (index, interval); permuted=True: not the ascending one (n >= 2)"""
+    perm = list(range(n))
+    if permuted is False or n < 2:
+        return perm
+    rng.shuffle(perm)
+    while permuted and perm == sorted(perm):
+        rng.shuffle(perm)
+    return perm
+
+
+def order_variant(rng, nI, permuted=None):
+    return dict(perm=draw_listing(rng, nI, permuted), form=rng.choice(IDX_FORMS), aform=rng.choice(VEC_FORMS),
+                entry=rng.choice(entries_for(nI)), kw=rng.random() < 0.4)
+
+
+def run_orders(ctx, factor):
+    """every index set (full set and proper sub-families) in EVERY listing order (d = 4: a sample), through every entry point; models with
+    pairwise different margins and, two out of three, a copula that is not a symmetric function of its arguments"""
+    rng = ctx.rng
+    for rep in range(ctx.n(8, 60) * factor):
+        d = (2, 3, 3, 4)[rep % 4]
+        exact = (rep % 2 == 1)
+        spec = distinct_margins(rng, draw_spec(rng, d, exact, nonexch=True, special=(rng.randrange(d) if rep % 3 else None)), exact)
+        hist = None
+        if rep % 5 == 4:            # the same on a live object that went through a history
+            hist = draw_history(rng, d, exact)
+            hist["spec0"] = distinct_margins(rng, hist["spec0"], exact)
+            spec = final_spec(hist)
+        for r in range(2):
+            pats = [rng.choice("-+0") for _ in range(d)]
+            if r == 0 or all(p == "0" for p in pats):      # a one-signed rectangle: every sub-family is admissible
+                pats = [rng.choice("-+") for _ in range(d)]
+            a, b = draw_rect(rng, pats, exact)
+            for I in subsets(d):
+                ai, bi = [a[i] for i in I], [b[i] for i in I]
+                if all(straddles(x, y) for x, y in zip(ai, bi)):
+                    continue
+                perms = [list(p) for p in itertools.permutations(range(len(I)))]
+                if len(perms) > 6:
+                    perms = [perms[0]] + rng.sample(perms[1:], 5)
+                for perm in perms:
+                    for entry in (entries_for(len(I)) if len(perms) <= 2 else rng.sample(entries_for(len(I)), 2)):
+                        inp = dict(spec=spec, I=I, a=ai, b=bi, perm=perm, form=rng.choice(IDX_FORMS), aform=rng.choice(VEC_FORMS),
+                                   entry=entry, kw=rng.random() < 0.4)
+                        if hist is not None:
+                            inp["hist"] = hist
+                        p_index_order(ctx, inp)
 
 
 def run_histories(ctx, oracle_only, factor):
@@ -1154,6 +1315,7 @@ def run_histories(ctx, oracle_only, factor):
             p_fast_vs_general(ctx, inp)
             p_nonneg(ctx, inp)
             p_by_definition(ctx, inp)
+            p_index_order(ctx, dict(inp, **order_variant(rng, d, True)))
             if not oracle_only and (exact or rng.random() < 0.3):
                 p_model(ctx, inp, exact)
             k = rng.randrange(d)
@@ -1170,6 +1332,7 @@ def run_histories(ctx, oracle_only, factor):
                 if not all(straddles(x, y) for x, y in zip(ai, bi)):
                     p_nonneg(ctx, sub)
                     p_by_definition(ctx, sub)
+                    p_index_order(ctx, dict(sub, **order_variant(rng, len(Is))))
                     if d >= 3 and len(Is) >= 2:
                         p_submargin(ctx, sub)
                 if not oracle_only and exact and rng.random() < 0.5:
@@ -1205,6 +1368,8 @@ def run(ctx, oracle_only=False, factor=1):
                     continue
                 p_nonneg(ctx, inp)
                 p_by_definition(ctx, inp)
+                if rng.random() < 0.5:          # the same rectangle, its coordinates listed in another order (c12.index_order)
+                    p_index_order(ctx, dict(inp, **order_variant(rng, d, True)))
                 k = rng.randrange(d)
                 p_additivity(ctx, dict(inp, k=k, c=split_point(rng, a[k], b[k], exact)))
                 # sub-families of coordinates
@@ -1217,6 +1382,8 @@ def run(ctx, oracle_only=False, factor=1):
                 if d == 3 and len(Is) == 2:
                     p_by_definition(ctx, sub)
                     p_submargin(ctx, sub)
+                    if rng.random() < 0.5:
+                        p_index_order(ctx, dict(sub, **order_variant(rng, 2)))
             # margins: one coordinate on one side, the others over the whole line
             for k in range(d):
                 lo, hi = draw_side(rng, rng.choice("-+"), exact, p_inf=0.2)
@@ -1241,6 +1408,7 @@ def run(ctx, oracle_only=False, factor=1):
                 p_model(ctx, inp, exact)
             p_nonneg(ctx, inp)
             p_by_definition(ctx, inp)
+            p_index_order(ctx, dict(inp, **order_variant(rng, d, True)))
             k = rng.randrange(d)
             c = split_point(rng, a[k], b[k], exact)
             p_additivity(ctx, dict(inp, k=k, c=c))
@@ -1252,6 +1420,7 @@ def run(ctx, oracle_only=False, factor=1):
                 sub = dict(spec=spec, I=Is, a=ai, b=bi)
                 p_by_definition(ctx, sub)
                 p_submargin(ctx, sub)
+                p_index_order(ctx, dict(sub, **order_variant(rng, len(Is), True)))
             kk = rng.randrange(len(Is))
             p_additivity_nd(ctx, dict(spec=spec, I=Is, a=ai, b=bi, k=kk, c=split_point(rng, ai[kk], bi[kk], exact)))
             p_whole_line_nd(ctx, dict(spec=spec, I=Is, a=ai, b=bi, k=rng.randrange(len(Is))))
@@ -1270,6 +1439,8 @@ def run(ctx, oracle_only=False, factor=1):
         p_whole_line_nd(ctx, dict(spec=spec, I=I, a=a, b=b, k=rng.randrange(d)))
     # --- operation histories on one live object (copula re-assigned / edited in place between evaluations) ---------------------
     run_histories(ctx, oracle_only, factor)
+    # --- every index set in every listing order / container, through every entry point (c12.index_order) ------------------------
+    run_orders(ctx, factor)
     # --- end points / split points exactly at 0 (finding #30) -------------------------------------------------------
     for rep in range(ctx.n(40, 400) * factor):
         d = rng.choice([2, 3])
